@@ -241,7 +241,9 @@ def checkLookupConstraints (c : CommonData) (wires : List GL2) (localZs nextZs l
   let looking (s : Nat) : GL2 := w (2 * s) + dA * w (2 * s + 1)
   let lookupCombo (s : Nat) : GL2 := w (3 * s) + dB * w (3 * s + 1)
   let c1 := sel 3 * zx (numSldc - 1)
-  let c2 := sel 2 * zx 0
+  -- F-C08-1 repaired in /repo: the initial Sum constraint pins the LAST SLDC polynomial of the row
+  -- after the first LUT row (the value the first LUT row's running sum starts from), not the first
+  let c2 := sel 2 * zx (numSldc - 1)
   let c3 := sel 2 * zRe
   let ends := (List.range (c.numLookupSelectors - 4)).map fun t =>
     let lut := c.luts.getD t []
